@@ -83,7 +83,7 @@ class World:
         """Abbreviated plan for the evidence file."""
         return plan
 
-    def warmup(self):
+    def warmup(self, config="default"):
         pass
 
 
